@@ -17,6 +17,11 @@ for pid, (tech, text) in ADDENDA.items():
     CLAIMS[pid]["text"] += " Added after seeding (DESIGN.md §10.9): " + text
     CLAIMS[pid]["design_ref"] = "§10.9"
 
+for pid, (tech, text) in ADDENDA2.items():
+    CLAIMS[pid]["technique"] += "; " + tech
+    CLAIMS[pid]["text"] += " Added in DESIGN.md §10.12–§10.14: " + text
+    CLAIMS[pid]["design_ref2"] = True
+
 NOT_APPLICABLE = NA  # from claims.py
 
 allp = [json.loads(l)["id"] for l in open(os.path.join(ROOT, "properties.jsonl"))]
@@ -32,7 +37,7 @@ for pid in allp:
         "evidence_file": f"/verif/evidence/{pid}.json",
         "replay_cmd_template": f"./bin/check -p {pid} -tier quick  # the replay file {{path}} lists the violated obligations (file:line, rule, construct)",
         "engine": "kaicheck",
-        "level_claimed": {"category": "other", "text": c["text"], "design_ref": f"DESIGN.md §4 {pid}" + (", §10.3, §10.9" if pid in ADDENDA else ", §10.3")},
+        "level_claimed": {"category": "other", "text": c["text"], "design_ref": f"DESIGN.md §4 {pid}" + (", §10.3, §10.9" if pid in ADDENDA else ", §10.3") + (", §10.12–§10.14" if pid in ADDENDA2 else "")},
         "level_note": c["note"],
         "technique": c["technique"],
     })
@@ -54,7 +59,7 @@ manifest = {
         "name": "kaicheck",
         "path": "checker/",
         "serves_properties": [c["property_id"] for c in checks],
-        "kind_free_text": "repo-specific static analyzer over go/types + go/ssa: guard-dominance / value-fact summaries (DOM, RET), must-pass-through (MPT), who-may-call/write (CALLERS), inverse-effect pairing (PAIR), dual-representation lock-step (DUAL), field coverage (FIELDS), typestate (STMT), hierarchy-walk (WALK), nil-map-deref (NILMAP), map-order sinks (MAPORDER), finite-partition abstract evaluation (ABS), lock-held-on-entry (LOCK)",
+        "kind_free_text": "repo-specific static analyzer over go/types + go/ssa: guard-dominance / value-fact summaries (DOM, RET), must-pass-through (MPT), who-may-call/write (CALLERS), inverse-effect pairing (PAIR), dual-representation lock-step (DUAL), field coverage (FIELDS), typestate (STMT), hierarchy-walk (WALK), nil-map-deref (NILMAP), map-order sinks (MAPORDER), finite-partition abstract evaluation (ABS), lock-held-on-entry (LOCK), finite-state abstract interpretation with ghost state and callee summaries (GHOST), nil-map write / optional-field dereference (NILWRITE, NILFIELD), dropped and swallowed errors (ERRDROP)",
     }],
     "checks": checks,
     "not_applicable": na,
